@@ -1,5 +1,7 @@
 import Lean.Data.Json
 import CbiVerif.Model.C06Compose
+import CbiVerif.Model.C06Fortran
+import CbiVerif.Model.Exclude
 import CbiVerif.Model.Summary
 import CbiVerif.Drv.C06
 /-! driver op for the composed C06 pipeline (source text → setmap / coverage):
@@ -7,11 +9,15 @@ import CbiVerif.Drv.C06
 `{"model": {"ok":{"files":[{"path":[..],"nodes":[[[plat..],num_lines,[line..]],..]}],"setmap":..,"summary":..,"coverage":..}} | {"exc":str},
   "spec": {"files":[{"guard":b,"k3":b,"counted":[..],"nodes":[[isDirective,[line..]],..],"attr":[[line,[plat..]],..]|null,
                      "accepts":b,"pp_agree":b}], "wf":b, "sloc":n}}`
-`model` = `C06C.analyse` followed by `SM.getSetmap`, `Summary.rows`, `Cov.compute` — the definitions of `Props/C06Compose.lean`;
-`spec`  = `CLexRef` (C05 specification) and `C06C.specLineAttr` (C01 reference machine per `-D` list). -/
+`model` = `C06L.analyseL` (`Model/C06Fortran.lean`: the front end is chosen by the extension of the file — C family: `C06C.parseSrc`,
+  free-form Fortran: `C06L.fParseSrc`, the C17 model; on a code base of C-family files it IS `C06C.analyse`,
+  `C06.mixed_eq_C_on_C_files`) followed by `SM.getSetmap`, `Summary.rows`, `Cov.compute` — the definitions of
+  `Props/C06Compose.lean` / `Props/C06Fortran.lean`;
+`spec`  = per file the specification of its language — `CLexRef` (C05) or `Fortran.refText` / `Fortran.refNodes` (C17) — and
+  `C06L.specLineAttrL` (C01 reference machine per `-D` list); every `spec.files[i]` also carries `"lang"`. -/
 open Lean
 namespace CbiVerif.Drv.C06Compose
-open CbiVerif.SM CbiVerif.C06C CbiVerif.Drv.C06
+open CbiVerif.SM CbiVerif.C06C CbiVerif.C06L CbiVerif.Drv.C06
 
 def parseSrcFile (j : Json) : SrcFile :=
   ⟨strs ((j.getObjVal? "path").toOption.getD Json.null), ((j.getObjValAs? String "text").toOption.getD "").toList⟩
@@ -34,22 +40,41 @@ def ppAgree (t : List Char) : Bool :=
   | .error _, .error _ => true
   | _, _ => false
 
+/-- the Fortran parser model of this composition (C17's `fortranSource` + `group` + `pnodeOf`) against the literal port used by
+    C08 (`PP.fFileSource` + `Exclude.nodesOfRows`): same node list -/
+def ppAgreeF (t : List Char) : Bool :=
+  let sig := fun (pn : List PP.PNode) => pn.map fun n => (toString (repr n.kind), n.lines, n.name, n.toks.map (·.text))
+  let port : Except PP.Err (List PP.PNode) :=
+    match PP.fFileSource (String.ofList t) with
+    | .error e => .error e
+    | .ok rows => CbiVerif.Exclude.nodesOfRows rows
+  match CbiVerif.Fortran.fortranPNodes (String.ofList t), port with
+  | .ok p, .ok q => sig p == sig q
+  | .error _, .error _ => true
+  | _, _ => false
+
+def langName : Lang → String
+  | .cFamily => "c" | .fortranFree => "fortran-free" | .asm => "asm" | .unsupported => "unsupported"
+
 def specFile (plats : List Plat) (f : SrcFile) : Json :=
   let entries := plats.flatMap fun p => p.entries.filter fun e => e.file == f.path
-  let (attr, accepts) := match parseSrc f.text with
-    | .ok p => (Json.arr ((specLineAttr plats f p.pnodes).map fun (x : Nat × Key) => Json.arr #[nj x.1, keyJson x.2]).toArray,
+  let lang := langOf f.path
+  let (attr, accepts) := match parseSrcL f with
+    | .ok p => (Json.arr ((specLineAttrL plats f p.pnodes).map fun (x : Nat × Key) => Json.arr #[nj x.1, keyJson x.2]).toArray,
                 structOK p.pnodes && entries.all fun e => refAccepts p.pnodes e.defs &&
                   (match PP.referenceNodes p.pnodes e.defs with | .ok r => r.err.isNone && !r.c23 | .error _ => false))
     | .error _ => (Json.null, false)
-  Json.mkObj [("guard", Json.bool (guard f.text)), ("k3", Json.bool (CLexRef.k3 f.text)),
-    ("counted", natsJson (CLexRef.countedLines f.text)),
-    ("nodes", Json.arr ((CLexRef.nodes f.text).map fun (x : Bool × List Nat) => Json.arr #[Json.bool x.1, natsJson x.2]).toArray),
-    ("attr", attr), ("accepts", Json.bool accepts), ("pp_agree", Json.bool (ppAgree f.text))]
+  Json.mkObj [("lang", Json.str (langName lang)),
+    ("guard", Json.bool (guardL f)), ("k3", Json.bool (lang == .cFamily && CLexRef.k3 f.text)),
+    ("counted", natsJson (countedL f)),
+    ("nodes", Json.arr ((specNodesL f).map fun (x : Bool × List Nat) => Json.arr #[Json.bool x.1, natsJson x.2]).toArray),
+    ("attr", attr), ("accepts", Json.bool accepts),
+    ("pp_agree", Json.bool (match lang with | .cFamily => ppAgree f.text | .fortranFree => ppAgreeF f.text | _ => true))]
 
 def handle (j : Json) : Json :=
   let files := ((j.getObjValAs? (Array Json) "files").toOption.getD #[]).toList.map parseSrcFile
   let plats := ((j.getObjValAs? (Array Json) "plats").toOption.getD #[]).toList.map parsePlat
-  let model := match analyse files plats with
+  let model := match analyseL files plats with
     | .error e => Json.mkObj [("exc", toString (repr e))]
     | .ok fs =>
       let sm := getSetmap fs
@@ -69,7 +94,7 @@ def handle (j : Json) : Json :=
   Json.mkObj [("model", model),
     ("spec", Json.mkObj [("files", Json.arr sf.toArray),
       ("wf", Json.bool (sf.all fun x => flag "guard" x && !flag "k3" x && flag "accepts" x)),
-      ("sloc", nj ((files.map fun f => (CLexRef.countedLines f.text).length).sum))])]
+      ("sloc", nj ((files.map fun f => (countedL f).length).sum))])]
 
 def handlers : List (String × (Json → Json)) := [("c06text", handle)]
 
